@@ -539,6 +539,8 @@ func runC03(c *Ctx) {
 	c03SubsetByPair(c, "SUBSET-BY-PAIR")
 	c03IndexAccumulates(c, "INDEX-ACCUMULATES")
 	c04SiblingSkipGuards(c, "SIBLING-SKIP-GUARDS")
+	c.Rule("FILES-COMPLETE", "every input file (current and previous) is converted for the rule handlers whatever the parallelism", 1)
+	goAggRule(c, "FILES-COMPLETE", func(rel string) bool { return rel == "private/bufpkg/bufprotosource" })
 }
 
 // enclosingStmtList returns the innermost block/clause that contains n.
